@@ -169,7 +169,8 @@ def gen(rng, tier, index):
         spec["xform"] = gens.pick(rng, vforms.PRESENT)
         spec["yform"] = gens.pick(rng, vforms.PRESENT)
         spec["clobber"] = bool(rng.random() < 0.5)
-    return {"spec": spec, "X": X * unit, "y": y, "kind": kind, "links": links, "exhaustive": exhaustive, "unit": unit, "past": past, "carry": carry, "readers": readers}
+        spec["npscalars"] = bool(rng.random() < 0.3)
+    return {"spec": spec, "X": X * unit, "y": y, "kind": kind, "links": links, "exhaustive": exhaustive, "unit": unit, "past": past, "carry": carry, "readers": readers, "reject": bool(rng.random() < 0.4) and not exhaustive}
 
 
 def _state(est, spec):
@@ -219,6 +220,8 @@ def run(case, j):
         j.note("configured_not_by_constructor")
     if spec.get("xform", "C") != "C":
         j.note("non_default_containers")
+    if spec.get("npscalars"):
+        j.note("numpy_scalar_parameters")
     axis = sel.axis_of(spec)
     N = X.shape[axis]
     fam_fps = spec["cls"] in sel.FPS_FAMILY
@@ -254,6 +257,8 @@ def run(case, j):
     # ---- the cold reference
     cold = sel.make(spec)
     cold.n_to_select = links[-1]["n"]
+    if case.get("reject"):
+        vforms.rejected(j, "warm start of a never-fitted selector", sel.fit, cold, X, y, spec, warm=True)
     trc = rt.GreedyTrace(cold)
     j.lib("fit:cold", sel.fit, cold, X, y, spec)
     seq = [e["idx"] for e in trc.commits()]
@@ -306,9 +311,14 @@ def run(case, j):
     # whole-number data: every FPS distance is computed exactly, so a threshold EQUAL to a score is meaningful
     exact = spec["cls"] in ("FPS", "VoronoiFPS") and case.get("unit", 1.0) == 1.0 and bool(np.all(X == np.round(X))) and float(np.abs(X).max()) < 1e3
     for li, link in enumerate(links):
+        if li > 0 and case.get("reject") and int(getattr(est, "n_selected_", 0)) >= 2:
+            # a failure in the history: a warm start asking for fewer selections than were already made is refused,
+            # the request is corrected and the chain goes on with the same object
+            est.n_to_select = int(est.n_selected_) - 1
+            vforms.rejected(j, "shrinking warm start", sel.fit, est, X, y, spec, warm=True)
         if li > 0 and case.get("carry") and case["carry"][li] != "same":
             est = j.lib("carry", vforms.carry, est, case["carry"][li], j)  # the chain continues on a copy of the object
-        est.n_to_select = link["n"]
+        est.n_to_select = vforms.numpy_scalars({"n": link["n"]})["n"] if spec.get("npscalars") else link["n"]
         if link["threshold"]:
             est.score_threshold_type = link["threshold"]
             est.score_threshold = 1e-300
